@@ -103,6 +103,9 @@ def run(ctx) -> None:
     ctx.rule("R02.12", "sorted / min / max never hand the user's key to list.sort / sorted / min / max of the standard library, which "
                        "would use a coroutine as the key (R03.14, shared)")
     c03.r03_14(Relabel(ctx, "R02.12"), "R02.12")  # (sorted / min / max with a key that is asynchronous in any flavour)
+    ctx.rule("R02.14", "what an aggregation returns does not depend on whether its argument has a length or is a list: the iterable "
+                       "is never asked for len() nor type-tested against synchronous containers (R03.2, shared)")
+    c03.r03_2(Relabel(ctx, "R02.14"), modules=("builtins", "heapq", "functools"))
     ctx.rule("R02.13", "a key / reduction function is used whatever its truth value (a callable object may be falsy): whether one was "
                        "given is decided by `is None` (R03.12, shared)")
     c03.r03_12(Relabel(ctx, "R02.13"), modules=("builtins", "heapq", "functools", "_core"))
@@ -563,7 +566,7 @@ def r02_4(ctx) -> None:
                       node=loop, witness=f"evaluated: replaced={sorted(got)}")
     # directions of the two public functions
     for name, want in (("heapq.nlargest", "False"), ("heapq.nsmallest", "True")):
-        pu = ctx.inlined(ctx.unit(name))  # (the two may share a private body that is told the direction)
+        pu = ctx.inlined(ctx.unit(name), keep=(u.node.name,))  # (the two may share a private body that is told the direction)
         calls = [c for c in own_nodes(pu.node) if isinstance(c, ast.Call) and norm(c.func) == u.node.name]
         got = {k.arg: norm(k.value) for k in calls[0].keywords}.get(flag) if calls else None
         if calls and got is None and len(calls[0].args) >= 4:
